@@ -132,5 +132,16 @@ let () =
          | Some c -> hex_of_n c
          | None -> "0")
     | _ -> failwith "c18.effective args");
+  (* c18.colkey <dot-joined path:key number,...> <path components,...>
+     -> <number of the key the writer seals the column with (0: footer key)> <own key 0|1> *)
+  register "c18.colkey" (function
+    | [m; p] ->
+        let m = list_of_tok (fun it ->
+          match String.split_on_char ':' it with
+          | [n; k] -> (bytes_of_tok n, n_of_hex k)
+          | _ -> failwith "c18.colkey item") m in
+        let (k, own) = Model.oracle_column_key m (list_of_tok bytes_of_tok p) in
+        hex_of_n k ^ " " ^ tok_of_bool own
+    | _ -> failwith "c18.colkey args");
   register "c18.limits" (function
     | _ -> hex_of_n Model.max_int16 ^ " " ^ hex_of_n Model.max_row_groups ^ " " ^ hex_of_n Model.max_column_index)
